@@ -1004,7 +1004,7 @@ PROPS = {
                      "Vibrato.Corpus.malformed_line_err", "Vibrato.Corpus.invalid_utf8_err",
                      "Vibrato.Corpus.mecabOutput_eq_write", "Vibrato.Corpus.tokenizer_output_parses",
                      "Vibrato.Corpus.tokenizer_outputs_parse"],
-        "streams": with_cli(simple_streams("corpus", 1000, 30000, corpus_classify), {"corpus": corpus_classify}, ("tokenize-output-mecab", "tokenize-status"), 12, 400),
+        "streams": with_cli(simple_streams("corpus", 1000, 30000, corpus_classify), {"corpus": corpus_classify}, ("tokenize-output-mecab", "tokenize-status", "train-status"), 12, 400),
         "rule": "three generators: byte soup over a CR/LF/TAB/EOS/UTF-8-edge alphabet (20%), structured corpora with "
                 "varied terminators and rare garbage lines (50%), real tokenizer output rendered as `tokenize -O mecab` "
                 "prints it (30%); non-trivial = at least one example parsed, or a tokenizer case",
